@@ -112,11 +112,24 @@ impl Import {
         let path = path.parent().context("no parent")?.join(attempted_path);
         // `a`, `./a` and `lib/./a` are the same module: the path is the compile-time registry key
         // and the key of the run-time module cache, so drop every `.` component.
-        let path = path
-            .components()
-            .filter(|component| !matches!(component, std::path::Component::CurDir))
-            .collect();
-        Ok(path)
+        // ... and `lib/../a` is `a` as well: a `..` cancels the directory before it (a leading `..`,
+        // which leaves the directory of the entry module, is kept)
+        let mut normalized = PathBuf::new();
+        for component in path.components() {
+            match component {
+                std::path::Component::CurDir => (),
+                std::path::Component::ParentDir
+                    if matches!(
+                        normalized.components().next_back(),
+                        Some(std::path::Component::Normal(_))
+                    ) =>
+                {
+                    normalized.pop();
+                }
+                other => normalized.push(other),
+            }
+        }
+        Ok(normalized)
     }
 }
 
